@@ -230,35 +230,6 @@ def run(ctx):
                 inner = [(t2, h2) for (t2, h2) in b.back_edges() if (t2, h2) != (tail, head) and h2 in lb]
                 g5 = init_ok and upd_ok and src_ok and it_ok and once and not inner
                 why5 = "%s: init_ok=%s upd_ok=%s src_ok=%s iter_ok=%s once=%s inner_loops=%s; update=%s" % (form, init_ok, upd_ok, src_ok, it_ok, once, inner, G.show(uv)[:120])
-    if not body_copy:
-        # slices.iter().fold(dst0, |dst, s| { copy(s.as_ptr(), dst, s.len()); dst.add(s.len()) }): the same running pointer,
-        # the loop being Iterator::fold's (in order, once per element: std contract)
-        folds = callv(A, ["core::iter::traits::iterator::Iterator::fold", "as core::iter::traits::iterator::Iterator>::fold"])
-        if len(folds) == 1:
-            fv = N(folds[0][2])
-            why5 = "fold form: %s" % G.show(fv)[:300]
-            if fv[0] == "call" and len(fv[2]) == 3:
-                itr, init0, clo = fv[2]
-                while itr[0] == "call" and "IntoIterator" in str(itr[1]) and len(itr[2]) == 1:
-                    itr = itr[2][0]
-                it_ok = itr[0] == "call" and cn(itr[1]) == "core::slice::iter" and itr[2] == (arg(2),)
-                pi = G.ptr_norm(init0)
-                init_ok = pi is not None and pi[0] == HEAP and pi[1].key() == G.lin(HS).key()
-                cf = [c for k, c in F.fns.items() if clo[0] == "aggr" and clo[1][0] == "closure" and c.get("path") == clo[1][1]]
-                step_ok = False
-                if len(cf) == 1:
-                    C = an.of(F, cf[0])
-                    cc = callv(C, ["core::ptr::copy_nonoverlapping"])
-                    rt_c, _ = C.ret()
-                    if len(cc) == 1 and rt_c is not None and not C.body.back_edges():
-                        csrc, cdst, ccnt = N(cc[0][2])[2]
-                        item = csrc[1] if csrc[0] == "asptr" else None
-                        pr = G.ptr_norm(N(rt_c))
-                        step_ok = cdst == arg(2) and item is not None and ccnt == ("len", item) and item in (("deref", arg(3)), ("deref", ("deref", arg(3))), arg(3)) and \
-                            pr is not None and pr[0] == arg(2) and pr[1].key() == G.lin(ccnt).key() and \
-                            all(C.body.dominates(cc[0][0], r) for r in C.body.return_blocks)
-                g5 = it_ok and init_ok and step_ok
-                why5 = "fold form: iter_ok=%s init_ok=%s step_ok=%s" % (it_ok, init_ok, step_ok)
     ctx.check(g5, "N5", "body-copies",
               "each slice is copied to heap_ptr + write_offset with write_offset starting at size_of::<Header>() and advancing by the slice's length "
               "exactly once per iteration, source = the slice's own (ptr, len), slices taken in order from the argument",
